@@ -53,12 +53,12 @@ F = [
                 'iteration after run() has returned or raised. A pick-up later than that is reported as a violation (started_after_end)',
       witness={'C13': 'witnesses/KF-POOLWINDOW.json'}),
  dict(id='KF-STORE-REC', family='rec_iterates', properties=['C19', 'C08'],
-      kinds=['recurrent_marker_saved', 'saved_more_than_once', 'write_once_store_failed_run', 'exception_saved', 'saved_value_not_final'],
+      kinds=['recurrent_marker_saved', 'saved_more_than_once', 'write_once_store_failed_run'],
       mechanism='_run_node saves every intermediate result (manager.py 645-649, see the TODO): the Recurrent marker of the destination and '
                 'the value of every re-executed node are saved once per iteration, so a write-once store fails a correct recurrent pipeline',
       witness={'C19': 'witnesses/KF-STORE-REC.json'}),
  dict(id='KF-STORE-CAND', family='cand_fail', properties=['C19', 'C08'],
-      kinds=['exception_saved', 'saved_more_than_once', 'write_once_store_failed_run', 'recurrent_marker_saved', 'saved_value_not_final'],
+      kinds=['exception_saved'],
       mechanism='the contained exception of a losing one-of candidate is saved as that node\'s artifact (manager.py 333-340 + 645-649)',
       witness={'C19': 'witnesses/KF-STORE-CAND.json'}),
 ]
